@@ -1,5 +1,7 @@
 //! Implementation of the Universal Chess Interface (UCI) protocol
 
+#[cfg(jgilchrist_tcheran_verif)]
+use crate::verif_shim as std;
 use std::io::{BufRead, IsTerminal};
 use std::sync::{Arc, Mutex};
 use std::time::{Duration, Instant};
@@ -520,6 +522,11 @@ enum ExecuteResult {
 }
 
 fn send_response(response: &UciResponse) {
+    #[cfg(jgilchrist_tcheran_verif)]
+    if crate::verif_hooks::response(&format!("{response}")) {
+        return;
+    }
+
     println!("{response}");
 }
 
@@ -558,4 +565,56 @@ pub fn uci(uci_input_mode: UciInputMode) -> Result<(), String> {
     };
 
     uci.main_loop(uci_input_mode)
+}
+
+#[cfg(jgilchrist_tcheran_verif)]
+impl Uci {
+    // Same field initialisers as `uci()`, except for the hash size, a non-terminal reporter and
+    // never blocking on the search thread.
+    pub fn verif_new(hash_size: usize) -> Self {
+        let options = EngineOptions {
+            hash_size,
+            ..EngineOptions::default()
+        };
+
+        Self {
+            control: None,
+            is_stopped: Arc::new(LockLatch::new()),
+            reporter: UciReporter {
+                pretty_output: false,
+            },
+            debug: false,
+            persistent_state: Arc::new(Mutex::new(PersistentState::new(options.hash_size))),
+
+            game: Game::new(),
+            options,
+
+            block_on_threads: false,
+        }
+    }
+
+    pub fn verif_run_line(&mut self, line: &str) -> Result<bool, String> {
+        self.run_line(line)
+    }
+
+    pub fn verif_game(&self) -> &Game {
+        &self.game
+    }
+
+    pub fn verif_options(&self) -> &EngineOptions {
+        &self.options
+    }
+
+    pub fn verif_persistent_state(&self) -> &Arc<Mutex<PersistentState>> {
+        &self.persistent_state
+    }
+
+    // (a stop handle is held, the latch is set, the persistent state mutex is free)
+    pub fn verif_protocol_state(&self) -> (bool, bool, bool) {
+        (
+            self.control.is_some(),
+            self.is_stopped.verif_is_set(),
+            self.persistent_state.try_lock().is_ok(),
+        )
+    }
 }
